@@ -377,7 +377,11 @@ func c06Exec(cfg c06Cfg, path []int, closing bool) (menu int, v *fw.Violation, x
 
 func runC06(c *fw.Ctx) {
 	runSpxFamily(c, "C06")
-	defer runC06Hist(c) // last: if the time budget runs out it is the long histories that are cut short
+	if c.Tier == "thorough" {
+		runC06Hist(c) // the thorough exploration uses its whole budget: the long histories go first there
+	} else {
+		defer runC06Hist(c) // last: if the time budget runs out it is the long histories that are cut short
+	}
 	thorough := c.Tier == "thorough"
 	cfgs := []c06Cfg{
 		{0, []int{3}, []bool{false}, nil}, {1, []int{6}, []bool{true}, nil}, {5, []int{6, 3}, []bool{false, false}, nil}, {1, []int{3, 1}, []bool{true, false}, nil},
